@@ -782,6 +782,8 @@ func (m *Machine) eval(e *env, ex Expr) Value {
 		return r
 	case *DefaultOf:
 		return DefaultValue(x.T)
+	case *RawLit:
+		return x.V
 	case *Arg:
 		if x.I >= len(m.args) {
 			panic(rtError{"missing argument"})
